@@ -65,6 +65,9 @@ OBS = {n: dict(kind="bounded", bound=B, functions=[f], contract=f + ": " + C) fo
 
 BOUNDS_C = ("for every optional start / end (any isize) and every length: Ok((s, e)) implies s <= e <= len with s, e the given values (defaults 0 and len); "
             "a negative bound, an end beyond the length or start > end is a ContractViolation error value; more than two bounds is an ArityMismatch - never an out-of-range pair")
+for _n in ["both_shared", "left_shared", "right_shared", "unique"]:
+    OBS["hash_union_small_" + _n] = dict(kind="bounded", bound="one-entry maps with the SAME key and different values (the smallest maps that distinguish the operand order)", functions=["hm_union"],
+                                         contract="hm_union: " + C + "; the value of a common key is the LEFT map's")
 OBS["bounds_mut_contract"] = dict(kind="bounded", bound="slices of length <= 4 (bounds are any isize)", functions=["bounds_mut"], contract=BOUNDS_C, props=["C07", "C01"])
 OBS["bounds_contract"] = dict(kind="bounded", bound="vectors of length <= 2 (bounds are any isize)", functions=["bounds"], contract=BOUNDS_C, props=["C07", "C01"])
 
@@ -78,7 +81,7 @@ def run_unit(scratch, tier, prop="C03"):
     p = os.path.join(crate, "src/harness.rs")
     write(p, read(p) + "\n#[kani::proof]\n#[kani::unwind(6)]\nfn canary_must_fail() {\n    let g = Gc::new(1u8);\n    let mut h = g.clone();\n    assert!(Gc::get_mut(&mut h).is_some(), \"canary: must be reported as failing\");\n}\n")
     specs = [dict(name=n, kind=o["kind"], contract=o["contract"], functions=o["functions"], bound=o.get("bound")) for n, o in OBS.items()
-             if (tier == "thorough" or not n.startswith("hash_union")) and prop in o.get("props", ["C03"])]
+             if (tier == "thorough" or not (n.startswith("hash_union") and not n.startswith("hash_union_small"))) and prop in o.get("props", ["C03"])]
     specs.append(dict(name="canary_must_fail", kind="canary", contract="assert that must fail"))
     obs, cmd, out = kani.run_harnesses(crate, specs, NAME, "pers", jobs=8, timeout=6000, harness_timeout=("40m" if tier == "thorough" else "10m"),
                                        extra_flags=["--no-assertion-reach-checks"])
